@@ -21,6 +21,19 @@ CLAIMED["C17"] = ("SSA path enumeration of the done flag through every b-tree it
  "Decides that every iteration level returns an inner done=true at once without another callback, that adapters forward the user's answer, that an early stop yields a nil error, and that the unlock is deferred. Together with the traversal order this is the structural content of the property.",
  "DESIGN.md §4 C17, §3.2")
 
+CLAIMED["C07"] = ("fcntl request constants/order/error edges of the unix pager on SSA; decision table of resolveDirty by path enumeration with literal extraction",
+ "Decides that lock acquisition is non-blocking pending-then-shared with both errors returned before any read, that a failed RLock returns before any page-reaching call, and that resolveDirty maps (hot journal, RESERVED held) to error/proceed exactly as required. Structural necessary conditions; writer behaviour itself is an assumption about SQLite.",
+ "DESIGN.md §4 C07")
+CLAIMED["C08"] = ("must-precede (revalidation before page reads and cache lookups) over the call graph; decision table of resolveDirty (cache keys, header replacement); re-map rule",
+ "Decides that RLock invalidates, every db entry point revalidates before any page read or cache lookup, dirty is cleared only after the header was re-read/re-parsed and installed, the page cache is keyed on the change counter and the schema cache on the cookie; reports the open-time mapping as a known finding. Histories themselves are not decidable statically.",
+ "DESIGN.md §4 C08")
+CLAIMED["C09"] = ("decision tables of resolveDirty and validJournal by path enumeration; journal magic/offset constants vs SQLite; journal name flow",
+ "Decides that the journal gate precedes the header read in every revalidation, hot ⇒ error unless RESERVED is held, that `hot` requires magic ∧ sane sector ∧ full header ∧ full sector, that all other journal states do not block reading, and that name and magic agree with SQLite. Crash-point semantics of a real writer are out of reach.",
+ "DESIGN.md §4 C09")
+CLAIMED["C15"] = ("accepted-value sets computed from the accepting paths of parseHeader (path literals; whole domain for 1-2 byte fields); binary stream offsets of the decoded struct vs fileformat2; revalidation must-precede",
+ "Decides the header layout, the exact accepted value set of every validated header field, that no other field influences acceptance, and that the header is re-validated before any page read of every transaction.",
+ "DESIGN.md §4 C15")
+
 NA_REASON_NOT_BUILT = "check not built yet in this round; DESIGN.md §4 describes the structural clauses that will be claimed"
 ALL = ["C%02d" % i for i in range(1, 21)]
 
